@@ -45,13 +45,16 @@ theorem c08_run_classification_table :
 /-! ### which requests are failures -/
 
 /-- How an admitted request that is not answered from the cache is classified, in terms of what the agents
-    did: an exception of either agent is a failure outcome; when both answer, the outcome is what `classifyRun`
-    makes of the gate's result. -/
+    did: an `Exception` of the executor — or of the assessor once the executor has answered — is a failure
+    outcome, whether or not it can be rendered as text (`excU`: the handler counts it before it fails itself);
+    a `BaseException` passes through `run` uncounted (`aborted`); when both answer, the outcome is what
+    `classifyRun` makes of the gate's result. -/
 theorem c08_failure_outcomes (cfg : Cfg) (H : Hashes) (s : State) (p : Prompt) (zr yr : Resp)
     (hadm : (run cfg H s p zr yr).2.kind ≠ .circuitOpen) (hhit : (run cfg H s p zr yr).2.kind ≠ .cacheHit)
     (hraise : (run cfg H s p zr yr).2.kind ≠ .raised) :
     (run cfg H s p zr yr).2 = consultOut cfg H p zr yr ∧
-    ((zr = .exc ∨ yr = .exc) → (run cfg H s p zr yr).2.kind = .agentExc) ∧
+    ((zr.caught = true ∨ ((∃ z, zr = .ret z) ∧ yr.caught = true)) → (run cfg H s p zr yr).2.kind = .agentExc) ∧
+    ((zr = .excB ∨ ((∃ z, zr = .ret z) ∧ yr = .excB)) → (run cfg H s p zr yr).2.kind = .aborted) ∧
     (∀ z y, zr = .ret z → yr = .ret y →
       (run cfg H s p zr yr).2.kind =
         .gated (classifyRun (applyGate cfg.gate z y).success (applyGate cfg.gate z y).blocked z y)) := by
@@ -60,10 +63,13 @@ theorem c08_failure_outcomes (cfg : Cfg) (H : Hashes) (s : State) (p : Prompt) (
   cases hr : rejects cfg s.now s.br
   · simp only [hr, Bool.false_eq_true, ↓reduceIte] at hadm hhit hraise ⊢
     rcases afterCircuit_out cfg H { s with br := enter cfg s.now s.br } p zr yr with h | h | h
-    · refine ⟨h.1, ?_, ?_⟩
-      · rintro (rfl | rfl) <;> rw [h.1]
-        · rfl
-        · cases zr <;> rfl
+    · refine ⟨h.1, ?_, ?_, ?_⟩
+      · rw [h.1]
+        rintro (hz | ⟨⟨z, rfl⟩, hy⟩)
+        · cases zr <;> simp [Resp.caught] at hz <;> rfl
+        · cases yr <;> simp [Resp.caught] at hy <;> rfl
+      · rw [h.1]
+        rintro (rfl | ⟨⟨z, rfl⟩, rfl⟩) <;> rfl
       · intro z y hz hy
         subst hz hy
         rw [h.1] at hraise ⊢
@@ -325,9 +331,13 @@ theorem c08_probe_success_closes_and_clears (cfg : Cfg) (H : Hashes) (s : State)
       unfold consultOut at hr ⊢
       cases zr with
       | exc => simp [errorResult] at hr; subst hr; simp at hb
+      | excU => simp at hr
+      | excB => simp at hr
       | ret z =>
         cases yr with
         | exc => simp [errorResult] at hr; subst hr; simp at hb
+        | excU => simp at hr
+        | excB => simp at hr
         | ret y =>
           cases hp : p.enc <;> simp [hp] at hr ⊢
           subst hr
@@ -491,18 +501,22 @@ theorem c08_disabled_both_agents_consulted (cfg : Cfg) (H : Hashes) (s : State) 
     (hoff : cfg.breakerOn = false) (hk : (run cfg H s p zr yr).2.kind ≠ .cacheHit)
     (henc : cfg.cacheOn = true → p.enc = true) :
     (run cfg H s p zr yr).1.execCalls = s.execCalls + 1 ∧
-    (zr = .exc → (run cfg H s p zr yr).1.assessCalls = s.assessCalls) ∧
+    ((∀ z, zr ≠ .ret z) → (run cfg H s p zr yr).1.assessCalls = s.assessCalls) ∧
     (∀ z, zr = .ret z → (run cfg H s p zr yr).1.assessCalls = s.assessCalls + 1) := by
   have hcons : ∀ s1 : State, (consult cfg H s1 p zr yr).1.execCalls = s1.execCalls + 1 ∧
-      (zr = .exc → (consult cfg H s1 p zr yr).1.assessCalls = s1.assessCalls) ∧
+      ((∀ z, zr ≠ .ret z) → (consult cfg H s1 p zr yr).1.assessCalls = s1.assessCalls) ∧
       (∀ z, zr = .ret z → (consult cfg H s1 p zr yr).1.assessCalls = s1.assessCalls + 1) := by
     intro s1
     unfold consult
     cases zr with
     | exc => simp [callExecutor]
+    | excU => simp [callExecutor]
+    | excB => simp [callExecutor]
     | ret z =>
       cases yr with
       | exc => simp [callExecutor, callAssessor]
+      | excU => simp [callExecutor, callAssessor]
+      | excB => simp [callExecutor, callAssessor]
       | ret y => cases hp : p.enc <;> cases hc : cfg.cacheOn <;> simp [callExecutor, callAssessor]
   have hrun : run cfg H s p zr yr = afterCircuit cfg H s p zr yr := by unfold run; simp [hoff]
   rw [hrun] at hk ⊢
@@ -593,6 +607,29 @@ theorem c08_translation_agrees_run_structure :
     Tr.other_breaker_writers = 0 := by
   decide
 
+/-- An agent exception is counted BEFORE the handler of `run` tries to render it: when an agent raises an
+    `Exception` whose `__str__` raises, `run` itself raises (no reply) — and the request is a failure outcome all
+    the same: the failure count and the total error count grow by one, the time is stamped as the last failure, and
+    the breaker moves exactly as for any other failure.  (Tie to the source: `Tr.run_exception_records_failure`,
+    the handler STARTS with the failure-recording call — `c08_translation_agrees_run_structure`.) -/
+theorem c08_exception_counted_even_if_unprintable (cfg : Cfg) (H : Hashes) (s : State) (p : Prompt) (zr yr : Resp)
+    (hadm : (run cfg H s p zr yr).2.kind ≠ .circuitOpen) (hhit : (run cfg H s p zr yr).2.kind ≠ .cacheHit)
+    (hraise : (run cfg H s p zr yr).2.kind ≠ .raised)
+    (hexc : zr = .excU ∨ ((∃ z, zr = .ret z) ∧ yr = .excU)) :
+    (run cfg H s p zr yr).2 = ⟨.agentExc, none⟩ ∧ (run cfg H s p zr yr).2.kind.isFailure = true ∧
+    (run cfg H s p zr yr).1.br = recordFailure cfg s.now (enter cfg s.now s.br) ∧
+    (run cfg H s p zr yr).1.br.failures = s.br.failures + 1 := by
+  have h := c08_failure_outcomes cfg H s p zr yr hadm hhit hraise
+  have hout : (run cfg H s p zr yr).2 = ⟨.agentExc, none⟩ := by
+    rw [h.1]
+    rcases hexc with rfl | ⟨⟨z, rfl⟩, rfl⟩ <;> rfl
+  have hb := run_br cfg H s p zr yr
+  have hf := (c08_failure_recorded cfg H s p zr yr).1
+  rw [hout] at hb hf
+  refine ⟨hout, by rw [hout]; rfl, ?_, (hf rfl).1⟩
+  rw [hb.1]
+  simp [brStep, applyKind]
+
 /-! ### Non-vacuity: concrete histories meeting the hypotheses -/
 
 private def cfg2 : Cfg := { threshold := 2, timeout := 60 }
@@ -633,5 +670,17 @@ example : (exec { threshold := 1 } idHashes init [veto 1, veto 2, veto 3]).1.br.
 /-- a half-open state reached through a history (hypothesis `s.br.cstate = .halfOpen` of the probe theorems):
     a cache hit admitted as probe leaves the breaker half-open -/
 example : (exec cfg2 idHashes init [ok 7, efail 1, efail 2, .adv 60, ok 7]).1.br.cstate = .halfOpen := by decide
+
+/-- two agent exceptions that cannot be rendered open the breaker at threshold 2 although neither request got a
+    reply (hypotheses of `c08_exception_counted_even_if_unprintable`; `c08_open_after_threshold_consecutive` applies) -/
+example :
+    let tr := exec cfg2 idHashes init [.run (pr 1) .excU (.ret .permit), .run (pr 2) (.ret .execute) .excU, ok 3]
+    tr.1.br.cstate = .opened ∧ tr.1.br.failures = 2 ∧
+    tr.2.map (fun o => (o.out.kind, o.out.result.isSome)) =
+      [(.agentExc, false), (.agentExc, false), (.circuitOpen, true)] := by decide
+
+/-- an agent's BaseException passes through `run` uncounted -/
+example : (exec cfg2 idHashes init [.run (pr 1) .excB (.ret .permit), .run (pr 2) (.ret .execute) .excB]).1.br = {} := by
+  decide
 
 end Operon.Cffl
